@@ -235,3 +235,47 @@ Theorem api_overwrite_path_beside a ch g md v s :
              = (mkst (Some (ZG (adel "geff" a) (adel path_EDGES (adel path_NODES ch)))) tr, Err FileExistsError).
 Proof. intros Hs Hg Hne. destruct (api_overwrite KPath a ch g md v s Hs Hg) as [tr H]. exists tr. rewrite H.
   unfold cleaned. destruct (adel path_EDGES (adel path_NODES ch)) as [|kv r]; [contradiction|]. reflexivity. Qed.
+
+(* ---------- C05 for the graph-library writers: every state a crash of geff.write(..., overwrite=True) can leave ---------- *)
+Theorem crash_api_overwrite k pre g md v :
+  let (s', r) := api_write k g md v true (init pre) in
+  new_ok k r (s_trace s') /\ (r <> Ok tt -> s_trace s' <> [] -> unrecognised k (s_root s')).
+Proof.
+  rewrite api_write_eq. unfold bind at 1. unfold overwrite_guard, bind at 1.
+  rewrite check_for_geff_spec. cbn [s_root init].
+  destruct (exists_geff k pre) eqn:Eex.
+  - pose proof (delete_geff_states k (init pre)) as Hd.
+    destruct (delete_geff k (init pre)) as [s1 [u|e]] eqn:Ed.
+    + destruct Hd as [n1 [Ht1 [HF1 HP1]]]. cbn in Ht1. rewrite app_nil_r in Ht1.
+      assert (HU1 : Forall (unrecognised k) n1) by (eapply Forall_impl; [|exact HF1]; intros st; apply nodes_gone_unrecognised).
+      destruct u. pose proof (delete_geff_ok_no_geff k _ _ Ed) as Hng.
+      rewrite write_arrays_eq. unfold bind at 1. unfold overwrite_guard, bind at 1. rewrite check_for_geff_spec.
+      destruct (exists_geff k (s_root s1)) eqn:Eex1.
+      * (* the inner guard still sees something: refused, the old geff is gone *)
+        cbn. rewrite Ht1. split; [apply new_ok_all; exact HU1 | intros _ _; apply nodes_gone_unrecognised; exact HP1].
+      * unfold ret at 1. cbn iota beta.
+        pose proof (write_core_crash k g md v s1 Hng) as H.
+        destruct (write_core k g md v s1) as [s' r]. destruct H as [new [Ht [Hn Hr]]].
+        rewrite Ht, Ht1. split.
+        -- destruct new as [|f l]; cbn.
+           ++ apply new_ok_all. exact HU1.
+           ++ destruct Hn as [Hl Hf]. split; [apply Forall_app; auto | exact Hf].
+        -- intros Hne _. apply Hr. exact Hne.
+    + destruct Hd as [n1 [Ht1 [HF1 HP1]]]. cbn in Ht1. rewrite app_nil_r in Ht1. rewrite Ht1.
+      assert (HU1 : Forall (unrecognised k) n1) by (eapply Forall_impl; [|exact HF1]; intros st; apply nodes_gone_unrecognised).
+      split; [apply new_ok_all; exact HU1 | intros _ _; apply nodes_gone_unrecognised; exact HP1].
+  - unfold ret at 1. cbn iota beta.
+    rewrite write_arrays_eq. unfold bind at 1. rewrite (guard_skip k false (init pre) Eex).
+    pose proof (write_core_crash k g md v (init pre) (exists_geff_false _ _ Eex)) as H.
+    destruct (write_core k g md v (init pre)) as [s' r]. destruct H as [new [Ht [Hn Hr]]].
+    cbn in Ht. rewrite app_nil_r in Ht. rewrite Ht. split; [exact Hn | intros Hne _; apply Hr; exact Hne].
+Qed.
+
+Theorem crash_api_clean k pre g md v ov :
+  clean k pre ->
+  let (s', r) := api_write k g md v ov (init pre) in
+  new_ok k r (s_trace s') /\ (r <> Ok tt -> unrecognised k (s_root s')).
+Proof. intros Hc.
+  assert (He : exists_geff k (s_root (init pre)) = false).
+  { pose proof (check_for_geff_clean k pre Hc) as H. rewrite check_for_geff_spec in H. inversion H. reflexivity. }
+  rewrite (api_fresh k g md v ov (init pre) He). exact (crash_clean k pre g md v ov Hc). Qed.
